@@ -402,6 +402,8 @@ func errClass(err error) string {
 		return "noout"
 	case strings.Contains(m, "tools are not accessible at test time"):
 		return "testtool"
+	case strings.Contains(m, "has no outputs"):
+		return "zero"
 	case strings.Contains(m, "doesn't depend on target"):
 		return "nodep"
 	case strings.Contains(m, "Invalid build label"):
@@ -878,7 +880,7 @@ func judge(r *lib.Run, j *oracleJob, br *bashRes) {
 		fail = fmt.Sprintf("expansion %q reaches the command as %q, the named paths are %q", j.out, br.words, j.ex.paths)
 	} else if strings.Contains(br.marks, "M") {
 		fail = fmt.Sprintf("expansion %q names %q of which %s do not exist in the %s directory", j.out, br.words, br.marks, j.ex.where)
-		if j.ex.tool && j.ex.viaEP {
+		if j.ex.tool && j.ex.viaEP && allGood {
 			r.OracleFail("tool-entry-point-not-absolute", j.op, fail)
 		} else {
 			r.OracleFail("expansion-names-missing-file", j.op, fail)
@@ -889,12 +891,12 @@ func judge(r *lib.Run, j *oracleJob, br *bashRes) {
 		r.Count("oracle-pass")
 		return
 	}
-	if j.ex.tool && j.ex.viaEP {
+	if !allGood {
+		r.OracleFail("quote-misses-shell-metachar", j.op, fail)
+	} else if j.ex.tool && j.ex.viaEP {
 		r.OracleFail("tool-entry-point-not-absolute", j.op, fail)
 	} else if j.k.dir && !j.k.out && j.ex.rootPkg && !j.ex.tool {
 		r.OracleFail("dir-of-root-package-is-empty", j.op, fail)
-	} else if !allGood {
-		r.OracleFail("quote-misses-shell-metachar", j.op, fail)
 	} else {
 		r.OracleFail("expansion-not-the-named-words", j.op, fail)
 	}
